@@ -300,6 +300,9 @@ Proof.
   rewrite str_eqb_refl. simpl. apply IH.
 Qed.
 
+Lemma prefix_parts_refl : forall (t : modpath), prefix_parts t t = true.
+Proof. induction t as [|x t IH]; simpl; [reflexivity | rewrite str_eqb_refl; exact IH]. Qed.
+
 Lemma chain_In_prefix : forall t q, In q (chain_of t) -> t <> [] -> prefix_parts q t = true /\ q <> [].
 Proof.
   intros t q H Ht. apply In_nth_error in H. destruct H as [i Hi].
@@ -468,6 +471,7 @@ Section Sound.
   Hypothesis Hacyc : c_acyclic P = true.
   Hypothesis Hclosed : c_closed P = true.
   Hypothesis Hnoanc : c_no_ancestor_names P = true.
+  Hypothesis Hpaths : c_paths P = true.
 
   Let order := topo_order P.
   Definition idx (p : modpath) : option nat := index_of p order.
@@ -602,4 +606,331 @@ Section Sound.
     intros st st' q [H _] Hq. apply in_sys_true in Hq. destruct Hq as [m Hm].
     apply in_sys_true. exists m. apply H. exact Hm.
   Qed.
+
+  Lemma no_empty_mod : has_mod P [] = false.
+  Proof.
+    destruct (has_mod P []) eqn:E; [|reflexivity]. exfalso.
+    apply has_mod_true in E. destruct E as [m Hm]. apply find_mod_spec in Hm. destruct Hm as [Hin Hp].
+    unfold c_paths in Hpaths. apply andb_true_iff in Hpaths. destruct Hpaths as [_ H].
+    rewrite forallb_forall in H. specialize (H m Hin). rewrite Hp in H. discriminate.
+  Qed.
+
+  Lemma find_app_fresh_other : forall st e q, q <> ms_path e -> find_sys (st ++ [e]) q = find_sys st q.
+  Proof.
+    intros st e q Hne. rewrite find_sys_app. destruct (find_sys st q); [reflexivity|]. simpl.
+    assert (E : modpath_eqb (ms_path e) q = false) by (apply mpeq_false; congruence). rewrite E. reflexivity.
+  Qed.
+
+  Lemma find_app_fresh_same : forall st e, find_sys st (ms_path e) = None -> find_sys (st ++ [e]) (ms_path e) = Some e.
+  Proof. intros st e H. rewrite find_sys_app, H. simpl. rewrite mpeq_refl. reflexivity. Qed.
+
+  (* ---------------------------------------------------------------- executing the body of one module *)
+  Section Body.
+    Variable p : modpath.
+    Variable i : nat.
+    Variable m : pymod.
+    Variable f' : nat.
+    Hypothesis Hidx : idx p = Some i.
+    Hypothesis Hm : find_mod P p = Some m.
+    Hypothesis Hf' : 1 <= f'.
+    (* induction hypothesis of the main lemma: modules of smaller rank load fine *)
+    Hypothesis IHload : forall q k, idx q = Some k -> k < i -> forall st,
+      Inv st -> Low st (S k) ->
+      (forall a, In a (proper_prefixes q) -> has_mod P a = true -> in_sys st a = true) ->
+      exists st', load B P f' st q = Ok st' /\ Inv st' /\ Ext st st' /\
+                  (exists ms, find_sys st' q = Some ms /\ ms_done ms = true).
+
+    Definition BI (st : sysmods) (ga : env * option (list str)) : Prop :=
+      Inv st /\ find_sys st p = Some (mkMS p false (fst ga) (snd ga)) /\
+      (forall q ms, find_sys st q = Some ms -> ms_done ms = false ->
+                    q = p \/ exists k, idx q = Some k /\ S i <= k).
+
+    Definition Ext' (st st' : sysmods) : Prop :=
+      (forall q ms, q <> p -> find_sys st q = Some ms -> find_sys st' q = Some ms) /\
+      (forall q ms, find_sys st' q = Some ms -> ms_done ms = false -> q = p \/ find_sys st q = Some ms).
+
+    Lemma Ext_Ext' : forall st st', Ext st st' -> Ext' st st'.
+    Proof. intros st st' [H1 H2]. split; intros q ms; [intros _; apply H1 | intros H Hd; right; apply H2; assumption]. Qed.
+
+    Lemma Ext'_refl : forall st, Ext' st st.
+    Proof. intro st. apply Ext_Ext'. apply Ext_refl. Qed.
+
+    Lemma Ext'_trans : forall a b c, Ext' a b -> Ext' b c -> Ext' a c.
+    Proof.
+      intros a b c [H1 H2] [H3 H4]. split; intros q ms.
+      - intros Hne H. apply H3; [exact Hne|]. apply H1; assumption.
+      - intros H Hd. destruct (H4 q ms H Hd) as [E|E]; [left; exact E|]. apply H2; assumption.
+    Qed.
+
+    Definition lowish (st : sysmods) (q : modpath) : Prop :=
+      in_sys st q = true \/ exists k, idx q = Some k /\ k < i.
+
+    Lemma lowish_Ext : forall st st' q, Ext st st' -> lowish st q -> lowish st' q.
+    Proof. intros st st' q HE [H|H]; [left; eapply Ext_in_sys; eauto | right; exact H]. Qed.
+
+    Lemma BI_Ext : forall st st' ga, BI st ga -> Inv st' -> Ext st st' -> BI st' ga.
+    Proof.
+      intros st st' ga [HI [He Hl]] HI' [H1 H2]. split; [exact HI'|]. split; [apply H1; exact He|].
+      intros q ms Hq Hd. apply (Hl q ms); [apply H2; assumption | exact Hd].
+    Qed.
+
+    Lemma load_present : forall st q, in_sys st q = true -> load B P f' st q = Ok st.
+    Proof. intros st q H. destruct f' as [|f'']; [lia|]. simpl. rewrite H. reflexivity. Qed.
+
+    Lemma ONE : forall st ga q, BI st ga -> has_mod P q = true -> lowish st q ->
+      (forall a, In a (proper_prefixes q) -> has_mod P a = true -> in_sys st a = true) ->
+      exists st', load B P f' st q = Ok st' /\ BI st' ga /\ Ext st st' /\ in_sys st' q = true.
+    Proof.
+      intros st ga q HB Hq Hlow Hanc. destruct (in_sys st q) eqn:E.
+      - exists st. split; [apply load_present; exact E|]. split; [exact HB|]. split; [apply Ext_refl | exact E].
+      - destruct Hlow as [Hl|[k [Hk Hlt]]]; [congruence|].
+        destruct HB as [HI [He Hl]].
+        assert (HLow : Low st (S k)).
+        { intros q0 ms Hq0 Hd. destruct (Hl q0 ms Hq0 Hd) as [->|[k0 [Hk0 Hle]]].
+          - exists i. split; [exact Hidx | lia].
+          - exists k0. split; [exact Hk0 | lia]. }
+        destruct (IHload q k Hk Hlt st HI HLow Hanc) as [st' [H1 [H2 [H3 [ms [H4 H5]]]]]].
+        exists st'. split; [exact H1|]. split; [|split; [exact H3|]].
+        + apply (BI_Ext st st' ga); [split; [exact HI | split; assumption] | exact H2 | exact H3].
+        + apply in_sys_true. exists ms. exact H4.
+    Qed.
+
+    Lemma LIST : forall l pre st ga, BI st ga ->
+      (forall a, In a pre -> has_mod P a = true -> in_sys st a = true) ->
+      (forall l1 q l2, l = l1 ++ q :: l2 -> forall a, In a (proper_prefixes q) -> In a (pre ++ l1)) ->
+      (forall q, In q l -> has_mod P q = true -> lowish st q) ->
+      exists st', load_list P (load B P f') st l = Ok st' /\ BI st' ga /\ Ext st st' /\
+                  (forall a, In a (pre ++ l) -> has_mod P a = true -> in_sys st' a = true).
+    Proof.
+      induction l as [|q l IH]; intros pre st ga HB Hpre Hdec Hlow.
+      - exists st. simpl. split; [reflexivity|]. split; [exact HB|]. split; [apply Ext_refl|].
+        rewrite app_nil_r. exact Hpre.
+      - simpl. destruct (has_mod P q) eqn:Hq.
+        + assert (Hanc : forall a, In a (proper_prefixes q) -> has_mod P a = true -> in_sys st a = true).
+          { intros a Ha Hm'. apply Hpre; [|exact Hm'].
+            specialize (Hdec [] q l eq_refl a Ha). rewrite app_nil_r in Hdec. exact Hdec. }
+          destruct (ONE st ga q HB Hq (Hlow q (or_introl eq_refl) Hq) Hanc) as [st1 [H1 [H2 [H3 H4]]]].
+          rewrite H1.
+          destruct (IH (pre ++ [q]) st1 ga H2) as [st' [G1 [G2 [G3 G4]]]].
+          * intros a Ha Hm'. apply in_app_or in Ha. destruct Ha as [Ha|[<-|[]]].
+            -- eapply Ext_in_sys; [exact H3 | apply Hpre; assumption].
+            -- exact H4.
+          * intros l1 q' l2 El a Ha. rewrite <- app_assoc. simpl.
+            apply (Hdec (q :: l1) q' l2); [rewrite El; reflexivity | exact Ha].
+          * intros q' Hq' Hm'. eapply lowish_Ext; [exact H3|]. apply Hlow; [right; exact Hq' | exact Hm'].
+          * exists st'. split; [exact G1|]. split; [exact G2|]. split; [eapply Ext_trans; eauto|].
+            intros a Ha. apply G4. rewrite <- app_assoc. exact Ha.
+        + destruct (IH (pre ++ [q]) st ga HB) as [st' [G1 [G2 [G3 G4]]]].
+          * intros a Ha Hm'. apply in_app_or in Ha. destruct Ha as [Ha|[<-|[]]]; [apply Hpre; assumption | congruence].
+          * intros l1 q' l2 El a Ha. rewrite <- app_assoc. simpl.
+            apply (Hdec (q :: l1) q' l2); [rewrite El; reflexivity | exact Ha].
+          * intros q' Hq' Hm'. apply Hlow; [right; exact Hq' | exact Hm'].
+          * exists st'. split; [exact G1|]. split; [exact G2|]. split; [exact G3|].
+            intros a Ha. apply G4. rewrite <- app_assoc. exact Ha.
+    Qed.
+
+    Lemma TARGET : forall st ga t, BI st ga ->
+      (forall q, In q (chain_of t) -> has_mod P q = true -> lowish st q) ->
+      (has_mod P t = true \/ internal P t = false) ->
+      exists st', load_chain P (load B P f') st t = Ok st' /\ BI st' ga /\ Ext st st' /\
+                  (has_mod P t = true -> in_sys st' t = true).
+    Proof.
+      intros st ga t HB Hlow Hcl. unfold load_chain.
+      destruct (LIST (proper_prefixes t) [] st ga HB) as [st1 [H1 [H2 [H3 H4]]]].
+      - intros a [].
+      - intros l1 q l2 El a Ha. simpl.
+        apply (chain_ancestors_earlier t l1 q (l2 ++ [t])); [|exact Ha].
+        unfold chain_of. rewrite El, <- app_assoc. reflexivity.
+      - intros q Hq. apply Hlow. unfold chain_of. apply in_or_app. left. exact Hq.
+      - rewrite H1. destruct (has_mod P t) eqn:Ht.
+        + assert (Hanc : forall a, In a (proper_prefixes t) -> has_mod P a = true -> in_sys st1 a = true)
+            by (intros a Ha; apply H4; exact Ha).
+          assert (Hl : lowish st1 t).
+          { eapply lowish_Ext; [exact H3|]. apply Hlow; [|exact Ht]. unfold chain_of. apply in_or_app. right. left. reflexivity. }
+          destruct (ONE st1 ga t H2 Ht Hl Hanc) as [st' [G1 [G2 [G3 G4]]]].
+          exists st'. split; [exact G1|]. split; [exact G2|]. split; [eapply Ext_trans; eauto | intros _; exact G4].
+        + exists st1. split.
+          * destruct f' as [|f'']; [lia|]. simpl. destruct (in_sys st1 t); [reflexivity|].
+            unfold has_mod in Ht. destruct (find_mod P t); [discriminate|].
+            destruct Hcl as [Hc|Hc]; [discriminate | rewrite Hc; reflexivity].
+          * split; [exact H2|]. split; [exact H3 | discriminate].
+    Qed.
+
+    Lemma TARGETS : forall l st ga, BI st ga ->
+      (forall t q, In t l -> In q (chain_of t) -> has_mod P q = true -> lowish st q) ->
+      (forall t, In t l -> has_mod P t = true) ->
+      exists st', load_chains P (load B P f') st l = Ok st' /\ BI st' ga /\ Ext st st'.
+    Proof.
+      induction l as [|t l IH]; intros st ga HB Hlow Hmods.
+      - exists st. simpl. split; [reflexivity|]. split; [exact HB | apply Ext_refl].
+      - simpl.
+        destruct (TARGET st ga t HB) as [st1 [H1 [H2 [H3 _]]]].
+        + intros q Hq. apply (Hlow t q); [left; reflexivity | exact Hq].
+        + left. apply Hmods. left. reflexivity.
+        + rewrite H1. destruct (IH st1 ga H2) as [st' [G1 [G2 G3]]].
+          * intros t' q Ht' Hq Hm'. eapply lowish_Ext; [exact H3|]. apply (Hlow t' q); [right; exact Ht' | exact Hq | exact Hm'].
+          * intros t' Ht'. apply Hmods. right. exact Ht'.
+          * exists st'. split; [exact G1|]. split; [exact G2 | eapply Ext_trans; eauto].
+    Qed.
+
+    (* --- which modules a statement of m can make CPython load *)
+    Definition targets_of (s : stmt) : list modpath :=
+      match s with
+      | FromImport t names => t :: map (fun na => t ++ [fst na]) (filter (fun na => has_mod P (t ++ [fst na])) names)
+      | ImportStar t | ImportMod t _ => [t]
+      | _ => []
+      end.
+
+    Lemma stmt_edges_eq : forall s,
+      stmt_edges P p s = filter (fun q => has_mod P q && negb (is_ancestor_or_self q p)) (flat_map chain_of (targets_of s)).
+    Proof. destruct s; reflexivity. Qed.
+
+    Lemma path_m : path m = p.
+    Proof. apply find_mod_spec in Hm. tauto. Qed.
+    Lemma In_m : In m P.
+    Proof. apply find_mod_spec in Hm. tauto. Qed.
+
+    Lemma edge_low : forall s t q st ga, In s (body m) -> In t (targets_of s) -> In q (chain_of t) ->
+      has_mod P q = true -> BI st ga -> lowish st q.
+    Proof.
+      intros s t q st ga Hs Ht Hq Hmq [HI [He _]].
+      destruct (is_ancestor_or_self q p) eqn:Ea.
+      - left. unfold is_ancestor_or_self in Ea.
+        destruct (modpath_eqb q p) eqn:Eq.
+        + apply mpeq_true in Eq. subst q. apply in_sys_true. eexists. exact He.
+        + apply mpeq_false in Eq.
+          assert (Hne : q <> []) by (intro; subst q; rewrite no_empty_mod in Hmq; discriminate).
+          destruct HI as [_ [_ H4]]. apply (H4 p q).
+          * apply in_sys_true. eexists. exact He.
+          * apply proper_prefixes_complete; assumption.
+          * exact Hmq.
+      - right. destruct (ord_edges m In_m) as [i' [Hi' Hall]]. rewrite path_m in Hi'.
+        assert (i' = i) by congruence. subst i'.
+        apply Hall. unfold mod_edges. apply in_flat_map. exists s. split; [exact Hs|].
+        rewrite path_m, stmt_edges_eq. apply filter_In. split.
+        + apply in_flat_map. exists t. split; assumption.
+        + rewrite Hmq, Ea. reflexivity.
+    Qed.
+
+    Lemma stmt_target_in : forall s t, stmt_target s = Some t -> In t (targets_of s).
+    Proof. intros s t H. destruct s; simpl in *; inversion H; subst; left; reflexivity. Qed.
+
+    Lemma submodule_loads_in : forall vw s x, In x (submodule_loads P vw s) ->
+      In x (targets_of s) /\ has_mod P x = true.
+    Proof.
+      intros vw s x H. destruct s; simpl in H; try contradiction.
+      destruct (vw target) as [T|]; [|contradiction].
+      apply in_map_iff in H. destruct H as [na [Hx Hna]]. apply filter_In in Hna. destruct Hna as [Hin Hf].
+      destruct (alookup (fst na) (ms_globals T)); [discriminate|].
+      subst x. split; [|exact Hf]. simpl. right. apply in_map_iff. exists na. split; [reflexivity|].
+      apply filter_In. split; assumption.
+    Qed.
+
+    Lemma closed_stmt : forall s t, In s (body m) -> stmt_target s = Some t ->
+      has_mod P t = true \/ internal P t = false.
+    Proof.
+      intros s t Hs Ht. unfold c_closed in Hclosed. rewrite forallb_forall in Hclosed.
+      specialize (Hclosed m In_m). rewrite forallb_forall in Hclosed. specialize (Hclosed s Hs).
+      rewrite Ht in Hclosed. apply orb_true_iff in Hclosed. destruct Hclosed as [H|H]; [left; exact H|].
+      right. apply negb_true_iff. exact H.
+    Qed.
+
+    Definition names_target (s : stmt) : option modpath :=
+      match s with FromImport t _ | ImportStar t => Some t | _ => None end.
+
+    Lemma pure_step_ext' : forall vw1 vw2 ga s,
+      (forall t, names_target s = Some t -> vw1 t = vw2 t) ->
+      pure_step B P vw1 ga s = pure_step B P vw2 ga s.
+    Proof.
+      intros vw1 vw2 ga s H. destruct s; simpl in *; try reflexivity.
+      - rewrite (bind_names_ext P vw1 vw2 target names (fst ga) (H _ eq_refl)). reflexivity.
+      - rewrite (H _ eq_refl). reflexivity.
+    Qed.
+
+    Lemma noanc_stmt : forall s t, In s (body m) -> names_target s = Some t -> is_ancestor_or_self t p = false.
+    Proof.
+      intros s t Hs Ht. unfold c_no_ancestor_names in Hnoanc. rewrite forallb_forall in Hnoanc.
+      specialize (Hnoanc m In_m). rewrite forallb_forall in Hnoanc. specialize (Hnoanc s Hs).
+      rewrite path_m in Hnoanc. destruct s; simpl in Ht; inversion Ht; subst; apply negb_true_iff; exact Hnoanc.
+    Qed.
+
+    Lemma chain_last : forall t, In t (chain_of t).
+    Proof. intro t. unfold chain_of. apply in_or_app. right. left. reflexivity. Qed.
+
+    Lemma STEP : forall s ga ga' st, In s (body m) -> BI st ga ->
+      pure_step B P (find_sys (firstn i C)) ga s = Ok ga' ->
+      exists st', step B P (load B P f') p st s = Ok st' /\ BI st' ga' /\ Ext' st st'.
+    Proof.
+      intros s ga ga' st Hs HB Hpure. unfold step.
+      (* phase 1: the target and its parents *)
+      assert (P1 : exists st1, (match stmt_target s with Some t => load_chain P (load B P f') st t | None => Ok st end) = Ok st1
+                               /\ BI st1 ga /\ Ext st st1 /\
+                               (forall t, stmt_target s = Some t -> has_mod P t = true -> in_sys st1 t = true)).
+      { destruct (stmt_target s) as [t|] eqn:Et.
+        - destruct (TARGET st ga t HB) as [st1 [H1 [H2 [H3 H4]]]].
+          + intros q Hq Hmq. apply (edge_low s t q st ga Hs (stmt_target_in s t Et) Hq Hmq HB).
+          + apply (closed_stmt s t Hs Et).
+          + exists st1. split; [exact H1|]. split; [exact H2|]. split; [exact H3|].
+            intros t' Ht'. inversion Ht'; subst. exact H4.
+        - exists st. split; [reflexivity|]. split; [exact HB|]. split; [apply Ext_refl|].
+          intros t' Ht'. discriminate. }
+      destruct P1 as [st1 [E1 [HB1 [HE1 Hin1]]]]. rewrite E1.
+      (* phase 2: submodules named in a from-import *)
+      destruct (TARGETS (submodule_loads P (find_sys st1) s) st1 ga HB1) as [st2 [E2 [HB2 HE2]]].
+      { intros t q Ht Hq Hmq. apply submodule_loads_in in Ht. destruct Ht as [Ht _].
+        apply (edge_low s t q st1 ga Hs Ht Hq Hmq HB1). }
+      { intros t Ht. apply submodule_loads_in in Ht. tauto. }
+      rewrite E2.
+      (* phase 3: the pure effect, with a view that agrees with the canonical one *)
+      destruct HB2 as [HI2 [He2 Hl2]].
+      assert (Hent : entry_of st2 p = ga) by (unfold entry_of; rewrite He2; destruct ga; reflexivity).
+      rewrite Hent.
+      assert (Hview : forall t, names_target s = Some t -> find_sys st2 t = find_sys (firstn i C) t).
+      { intros t Ht. destruct (has_mod P t) eqn:Hmt.
+        - assert (Hna : is_ancestor_or_self t p = false) by (apply (noanc_stmt s t Hs Ht)).
+          assert (Hst : stmt_target s = Some t) by (destruct s; simpl in *; congruence).
+          assert (Hlow : exists k, idx t = Some k /\ k < i).
+          { destruct (ord_edges m In_m) as [i' [Hi' Hall]]. rewrite path_m in Hi'.
+            assert (i' = i) by congruence. subst i'. apply Hall.
+            unfold mod_edges. apply in_flat_map. exists s. split; [exact Hs|].
+            rewrite path_m, stmt_edges_eq. apply filter_In. split.
+            - apply in_flat_map. exists t. split; [apply stmt_target_in; exact Hst | apply chain_last].
+            - rewrite Hmt, Hna. reflexivity. }
+          destruct Hlow as [k [Hk Hlt]].
+          assert (Hin2 : in_sys st2 t = true) by (eapply Ext_in_sys; [exact HE2 | apply Hin1; assumption]).
+          apply in_sys_true in Hin2. destruct Hin2 as [e He]. rewrite He.
+          destruct (ms_done e) eqn:Hd.
+          + destruct HI2 as [H1 _]. rewrite (canon_view_low t k i Hk Hlt). symmetry. apply H1; assumption.
+          + exfalso. destruct (Hl2 t e He Hd) as [->|[k' [Hk' Hle]]].
+            * unfold is_ancestor_or_self in Hna. rewrite prefix_parts_refl in Hna. discriminate.
+            * assert (k' = k) by congruence. lia.
+        - rewrite (canon_view_ext t i Hmt).
+          destruct (find_sys st2 t) as [e|] eqn:He; [|reflexivity]. exfalso.
+          destruct HI2 as [_ [H3 _]]. assert (in_sys st2 t = true) by (apply in_sys_true; eexists; exact He).
+          rewrite (H3 t H) in Hmt. discriminate. }
+      rewrite (pure_step_ext' (find_sys st2) (find_sys (firstn i C)) ga s Hview), Hpure.
+      exists (set_entry st2 p ga'). split; [reflexivity|].
+      assert (Hf : forall x, ms_path (mkMS (ms_path x) (ms_done x) (fst ga') (snd ga')) = ms_path x) by reflexivity.
+      split; [split; [|split]|].
+      - (* Inv *)
+        destruct HI2 as [H1 [H3 H4]]. split; [|split].
+        + intros q ms Hq Hd. unfold set_entry in Hq.
+          destruct (modpath_eqb q p) eqn:Eq.
+          * apply mpeq_true in Eq. subst q. rewrite find_update_same in Hq by exact Hf. rewrite He2 in Hq.
+            simpl in Hq. inversion Hq; subst ms. discriminate.
+          * apply mpeq_false in Eq. rewrite find_update_other in Hq by assumption. apply H1; assumption.
+        + intros q Hq. unfold set_entry in Hq. rewrite in_sys_update in Hq by exact Hf. apply H3. exact Hq.
+        + intros q a Hq Ha Hma. unfold set_entry in *. rewrite in_sys_update in * by exact Hf. eapply H4; eauto.
+      - unfold set_entry. rewrite find_update_same by exact Hf. rewrite He2. reflexivity.
+      - intros q ms Hq Hd. unfold set_entry in Hq.
+        destruct (modpath_eqb q p) eqn:Eq; [left; apply mpeq_true; exact Eq|].
+        apply mpeq_false in Eq. rewrite find_update_other in Hq by assumption. apply (Hl2 q ms); assumption.
+      - (* Ext' *)
+        pose proof (Ext_trans _ _ _ HE1 HE2) as [G1 G2]. split.
+        + intros q ms Hne Hq. unfold set_entry. rewrite find_update_other by assumption. apply G1. exact Hq.
+        + intros q ms Hq Hd. unfold set_entry in Hq.
+          destruct (modpath_eqb q p) eqn:Eq; [left; apply mpeq_true; exact Eq|].
+          apply mpeq_false in Eq. rewrite find_update_other in Hq by assumption. right. apply G2; assumption.
+    Qed.
+  End Body.
 End Sound.
